@@ -510,6 +510,8 @@ func checkC12(R *Run) {
 		R.check(ok, "chat-mgr-shape", fname(j), P.pos(j.Pos()), "ClientConn[cc.ID] = cc", "Join does not store the connection under its own ID")
 	}
 	R.floor("chat-mgr-shape", 3)
+	R.rule("id-unique", "(shared with C13) chat members are addressed by client ID: no ID is handed to a second connection while registered, and the zero ID never")
+	R.ruleIDUnique()
 }
 
 func stripConvArr(v ssa.Value) ssa.Value { return stripConv(v) }
